@@ -105,6 +105,10 @@ impl LZ13CompressionFormat {
         // First, create the header.
         let mut result: Vec<u8> = Vec::new();
         let length = bytes.len();
+        if length == 0 {
+            // LZ11 encodes an empty payload with the extended (32-bit) length header.
+            return Ok(vec![0x13, 0x08, 0x00, 0x00, 0x11, 0x00, 0x00, 0x00, 0x00, 0x00, 0x00, 0x00]);
+        }
         let lz13_length = calculate_lz13_header(bytes)?;
         result.reserve(9 + length + ((length - 1) >> 3)); // For performance, reserve space to avoid resizing.
         result.push(0x13);
